@@ -406,50 +406,68 @@ Print Assumptions C03_authorize_any_agrees.
 
 (* ======================================================================================================
    Long-lived sessions (Session.v): an open BLIP connection / a continuous changes feed keeps a user object and
-   reloads it only when its ChangeWaiter was notified on one of its keys.  [forallb notified_op ops]: the history
-   (any operations of Access.v by anybody, sessions opened, requests made, in any order) contains no DELETION of a
-   principal document -- DeleteUser, DeleteRole with purge -- because a deletion is not notified (refuted below), and
-   no db Purge (purge-stale-grant).
+   reloads it only when its ChangeWaiter was notified on one of its keys; a mutation AND a deletion of a principal
+   document notify its key ([srun_now] = the code as it is now; before e7d0448 a deletion did not: C03_Refuted.v).
+   [forallb notified_op ops]: the history (any operations of Access.v by anybody -- including DeleteUser and
+   DeleteRole with purge --, sessions opened, requests made, in any order) contains no db Purge (purge-stale-grant)
+   and no raced load.
    ====================================================================================================== *)
 
 (* waiter_keys_cover_access_sources: after every history, the keys every open session listens on contain the key of
    its user's document and the key of the document of EVERY role named by its cached user object -- the principal
-   documents its effective access is computed from (the user still exists) *)
+   documents its effective access is computed from *)
 Theorem C03_waiter_keys_cover_access_sources : forall ops id s,
   forallb notified_op ops = true ->
-  find_sess id (ss_sess (srun sinit ops)) = Some s ->
+  find_sess id (ss_sess (srun_now sinit ops)) = Some s ->
   In (PU (se_user s)) (se_keys s) /\
-  (forall r, In r (snd (se_view s)) -> In (PR r) (se_keys s)) /\
-  users (ss_st (srun sinit ops)) (se_user s) <> None.
+  (forall r, In r (snd (se_view s)) -> In (PR r) (se_keys s)).
 Proof.
   intros ops id s Hn Hf. destruct (srun_SInv ops sinit Hn SInv_init) as [_ Hs].
-  destruct (Hs id s (find_sess_in _ _ _ Hf)) as [[A B] [C _]]. split; [exact A|]. split; [exact B | exact C].
+  destruct (Hs id s (find_sess_in _ _ _ Hf)) as [[A B] _]. split; [exact A | exact B].
 Qed.
 Print Assumptions C03_waiter_keys_cover_access_sources.
 
-(* ... so that every change of the effective set triggers a reload before the next request is authorized: the next
-   request of every open session is answered with exactly what a fresh request (a load in the current state) gets,
-   i.e. with the access specification of the current state *)
-Theorem C03_session_request_sees_current_access : forall ops id s,
+(* ... so that every change of the effective set triggers a reload before the next request is authorized: while its
+   user exists, the next request of every open session is answered with exactly what a fresh request (a load in the
+   current state) gets, i.e. with the access specification of the current state -- whatever was created, edited,
+   soft-deleted, purged or re-created in between *)
+Theorem C03_session_request_sees_current_access : forall ops id s ur,
   forallb notified_op ops = true ->
-  let ss := srun sinit ops in
+  let ss := srun_now sinit ops in
   find_sess id (ss_sess ss) = Some s ->
-  exists chs ros ur,
-    snd (sstep ss (SRequest id)) = SView (Some (chs, ros)) /\
+  users (ss_st ss) (se_user s) = Some ur ->
+  exists chs ros,
+    snd (sstep_now ss (SRequest id)) = SView (Some (chs, ros)) /\
     out_equiv (OUser (Some (chs, ros))) (snd (step (ss_st ss) (LoadUser (se_user s)))) /\
-    users (ss_st ss) (se_user s) = Some ur /\
     (forall c, In c chs <-> user_spec (ss_st ss) (se_user s) ur c) /\
     (forall r, In r ros <-> roles_spec (docs (ss_st ss)) (se_user s) (u_xro ur) r).
 Proof.
-  intros ops id s Hn ss Hf. pose proof (srun_SInv ops sinit Hn SInv_init) as I. fold ss in I.
-  destruct (session_request_fresh ss id s I Hf) as [chs [ros [E1 E2]]].
-  destruct I as [Ib _]. destruct (load_user_correct (ss_st ss) (se_user s) Ib) as [_ Hl]. cbn [step].
-  destruct (users (ss_st ss) (se_user s)) as [ur|] eqn:Eu.
-  - destruct Hl as [chs0 [ros0 [E0 [Hc Hr]]]]. exists chs, ros, ur. split; [exact E1|]. split; [exact E2|]. split; [reflexivity|].
-    rewrite E0 in E2. cbn [out_equiv] in E2. destruct E2 as [A B]. split; intros x; [rewrite (A x); apply Hc | rewrite (B x); apply Hr].
-  - rewrite Hl in E2. destruct E2.
+  intros ops id s ur Hn ss Hf Eu. pose proof (srun_SInv ops sinit Hn SInv_init) as I. fold (srun_now sinit ops) in I. fold ss in I.
+  destruct (session_request_fresh ss id s I Hf ltac:(congruence)) as [chs [ros [E1 E2]]].
+  destruct I as [Ib _]. destruct (load_user_correct (ss_st ss) (se_user s) Ib) as [_ Hl]. cbn [step]. rewrite Eu in Hl.
+  destruct Hl as [chs0 [ros0 [E0 [Hc Hr]]]]. exists chs, ros. split; [exact E1|]. split; [exact E2|].
+  rewrite E0 in E2. cbn [out_equiv] in E2. destruct E2 as [A B]. split; intros x; [rewrite (A x); apply Hc | rewrite (B x); apply Hr].
 Qed.
 Print Assumptions C03_session_request_sees_current_access.
+
+(* a deleted USER: the deletion makes every open session of that user dirty, and the session's next request FAILS
+   (blipHandler.refreshUser returns the reconnect error, a continuous feed ends with its error entry) instead of being
+   authorized with the cached user object.  (A BLIP connection stays open after that error and keeps its old user
+   object for later requests: refreshUser does not close it -- modelled, not covered by a theorem.) *)
+Theorem C03_deleted_user_session_request_fails : forall ops id s,
+  forallb notified_op ops = true ->
+  let ss := srun_now sinit ops in
+  find_sess id (ss_sess ss) = Some s ->
+  users (ss_st ss) (se_user s) <> None ->
+  let ss' := fst (sstep_now ss (SBase (DelUser (se_user s)))) in
+  users (ss_st ss') (se_user s) = None /\
+  exists s', find_sess id (ss_sess ss') = Some s' /\ se_user s' = se_user s /\ se_dirty s' = true /\
+             snd (sstep_now ss' (SRequest id)) = SErr.
+Proof.
+  intros ops id s Hn ss Hf Hex. pose proof (srun_SInv ops sinit Hn SInv_init) as I. fold (srun_now sinit ops) in I. fold ss in I.
+  exact (user_delete_wakes_session ss id s I Hf Hex).
+Qed.
+Print Assumptions C03_deleted_user_session_request_fails.
 
 (* non-vacuity: a history without purge in which a user created AFTER the granting document gets a channel
    directly and one through a granted role, and loses both when the document is tombstoned *)
